@@ -55,6 +55,21 @@ def build_package():
                 cfs += [("neg", "-a", ("neg", t1)), ("lita", "a + 1", ("lit", t1, "+", 1)), ("litb", "2 * a", ("litl", t1, "*", 2)),
                         ("litf", "a * 2.5", ("litf", t1, "*", 2.5)), ("lite", "a ** 2", ("lite", t1))]
             cases.append((rn, [("a", t1), ("b", t2)], cfs))
+    # group 1b: operands at the edges of their types (integer pairs, + - * only: the other operators have no in-range edge results)
+    ints = [t for t in NUM if is_int(t)]
+    for t1 in ints:
+        for t2 in ints:
+            cases.append(("E%s%s" % (t1.capitalize(), t2.capitalize()), [("a", t1), ("b", t2)], [(n, "a %s b" % op, ("pair", t1, t2, op)) for n, op in OPS[:3]]))
+    # group 1c: explicit conversions: `a as T` has static type T whatever a's type is, and carries it into a larger expression
+    for t1 in NUM:
+        cfs = []
+        for t in NUM:
+            if is_complex(t1) and not is_complex(t):
+                continue
+            cfs.append(("to%s" % t.capitalize(), "a as %s" % t, ("conv", t1, t)))
+            cfs.append(("cm%s" % t.capitalize(), "(a as %s) * b" % t, ("cpair", t1, t, "*")))
+            cfs.append(("cs%s" % t.capitalize(), "b - (a as %s)" % t, ("cpairr", t1, t, "-")))
+        cases.append(("V%s" % t1.capitalize(), [("a", t1), ("b", t1)], cfs))
     # group 2: two-operator trees in both parenthesisations over six operand types
     mix = [("int32", "uint8", "int64"), ("int32", "int32", "int32"), ("float32", "int32", "float64"), ("float64", "float64", "float64"),
            ("uint8", "float32", "int16"), ("complexfloat64", "int32", "float64"), ("int64", "int64", "uint8")]
@@ -181,6 +196,10 @@ def cpp_literal(t, v):
         return "%s(%r, %r)" % (CPP_T[t], v.real, v.imag)
     if t.startswith("float"):
         return "%s(%r)" % (CPP_T[t], v)
+    if INT_RANGE[t][0] == 0:
+        return "%s(%dULL)" % (CPP_T[t], v)
+    if v == -2**63:
+        return "%s(-9223372036854775807LL - 1)" % CPP_T[t]
     return "%s(%dLL)" % (CPP_T[t], v)
 
 
@@ -406,6 +425,19 @@ def main(tier):
                         chk.fail("static-type/pow", "%s ** %s has type %s, documented: ** on integers yields float64" % (t1, t2, a), where)
                 elif not (can_hold(a, t1) and can_hold(a, t2)) and not (is_int(t1) and is_int(t2) and a in ("int64", "uint64", "size", "float64")):
                     chk.fail("static-type/cannot-hold-operands/%s" % n, "%s %s %s has type %s, which cannot represent every %s" % (t1, op, t2, a, t1 if not can_hold(a, t1) else t2), where)
+    for t1 in NUM:
+        rt = types.get("V%s" % t1.capitalize(), {})
+        for t in NUM:
+            n = "to%s" % t.capitalize()
+            if n not in rt:
+                continue
+            chk.count()
+            if canon(rt[n]) != t:
+                chk.fail("static-type/conversion", "`a as %s` with a: %s has static type %s" % (t, t1, canon(rt[n])), {"expression": "a as %s" % t, "operand": t1, "type": canon(rt[n])})
+            for n2, e2 in (("cm%s" % t.capitalize(), "(a as %s) * b" % t), ("cs%s" % t.capitalize(), "b - (a as %s)" % t)):
+                if n2 in rt and not (can_hold(canon(rt[n2]), t) and can_hold(canon(rt[n2]), t1)) and not (is_int(t1) and is_int(t) and canon(rt[n2]) in ("int64", "uint64", "size", "float64")):
+                    chk.fail("static-type/conversion-operand", "`%s` with a, b: %s has static type %s, which cannot represent every %s" % (e2, t1, canon(rt[n2]), t),
+                             {"expression": e2, "operand": t1, "type": canon(rt[n2])})
     swc = getattr(build_package, "swcases", [])
     for rn, t1, t2 in swc:
         ra = types.get(rn, {})
@@ -428,6 +460,17 @@ def main(tier):
         if rn.startswith("S"):
             (_, t1), (_, t2) = fields
             grid[rn] = [(domain(t1, "a")[0], domain(t2, "b")[0]), (None, domain(t2, "b")[1]), (domain(t1, "a")[1], domain(t2, "b")[0]), (None, domain(t2, "a")[1])]
+        elif rn.startswith("E"):
+            (_, t1), (_, t2) = fields
+            (lo1, hi1), (lo2, hi2) = INT_RANGE[t1], INT_RANGE[t2]
+            grid[rn] = [(hi1, hi2), (lo1, hi2), (hi1, lo2), (lo1, lo2), (hi1, 1), (1, hi2)]
+        elif rn.startswith("V"):
+            (_, t1), _ = fields
+            if is_int(t1):
+                lo, hi = INT_RANGE[t1]
+                grid[rn] = [(hi, hi), (lo, 3), (7, 3), (100, 101)]
+            else:
+                grid[rn] = list(zip(domain(t1, "a"), domain(t1, "b")))
         elif rn.startswith("B"):
             (_, t1), (_, t2) = fields
             grid[rn] = list(itertools.product(domain(t1, "a"), domain(t2, "b")))
@@ -470,6 +513,20 @@ def main(tier):
             continue
         e, m, fields = meta[(rn, n)]
         vals = grid[rn][gi]
+        if m[0] in ("conv", "cpair", "cpairr"):
+            # a conversion of a value the target type cannot represent is not an in-range operand
+            src = vals[0]
+            if isinstance(src, complex):
+                okc = is_complex(m[2])
+            else:
+                okc = representable(Fraction(src), m[2])
+            if not okc:
+                continue
+            if m[0] == "cpair":
+                m = ("pair", m[2], m[1], m[3])
+            elif m[0] == "cpairr":
+                m = ("pair", m[1], m[2], m[3])
+                vals = (vals[1], vals[0])
         chk.nontriv((e, rn, vals))
         where = {"record": rn, "expression": e, "operand_types": [ft for _, ft in fields], "operands": [repr(v) for v in vals], "cpp": repr(c), "python": repr(p),
                  "static_type": types.get(rn, {}).get(n)}
@@ -486,7 +543,7 @@ def main(tier):
                 ref0 = None
             rt0 = canon(types[rn][n])
             if ref0 is not None and not isinstance(ref0, complex) and is_int(rt0) and Fraction(ref0).denominator == 1 and not representable(Fraction(ref0), rt0):
-                chk.fail("value/cpp-vs-python/result-outside-static-type", "%s with %s = %s (static type %s): the exact value %s does not fit; C++ gives %s, Python gives %s" % (
+                chk.fail("value/cpp-vs-python/result-outside-static-type/%s" % rt0, "%s with %s = %s (static type %s): the exact value %s does not fit; C++ gives %s, Python gives %s" % (
                     e, [fn for fn, _ in fields], [repr(v) for v in vals], rt0, ref0, c[1], p[1]), where)
                 continue
             rt0 = canon(types[rn][n])
@@ -509,6 +566,8 @@ def main(tier):
             ref = ref if isinstance(ref, complex) else Fraction(ref)
         elif m[0] == "pair":
             ref = exact(m[3], vals[0], vals[1])
+        elif m[0] == "conv":
+            ref = vals[0] if isinstance(vals[0], complex) else Fraction(vals[0])
         elif m[0] == "tree":
             shape, o1, o2 = m[1], m[2], m[3]
             x, y, z = vals
